@@ -76,12 +76,20 @@ func (p *ProofU) correctResponseSizes(pk *gabikeys.PublicKey) bool {
 
 // VerifyWithChallenge verifies whether the proof is correct.
 func (p *ProofU) VerifyWithChallenge(pk *gabikeys.PublicKey, reconstructedChallenge *big.Int) bool {
-	return p.correctResponseSizes(pk) && p.C.Cmp(reconstructedChallenge) == 0
+	return p.wellFormed() && p.correctResponseSizes(pk) && p.C.Cmp(reconstructedChallenge) == 0
+}
+
+// wellFormed checks that all mandatory fields of the (untrusted) proof are present.
+func (p *ProofU) wellFormed() bool {
+	return p.U != nil && p.C != nil && p.VPrimeResponse != nil && p.SResponse != nil
 }
 
 // reconstructUcommit reconstructs U from the information in the proof and the
 // provided public key.
 func (p *ProofU) reconstructUcommit(pk *gabikeys.PublicKey) (*big.Int, error) {
+	if !p.wellFormed() {
+		return nil, errors.New("incomplete proof")
+	}
 	// Reconstruct Ucommit
 	// U_commit = U^{-C} * S^{VPrimeResponse} * R_0^{SResponse}
 	Uc, err := common.ModPow(p.U, new(big.Int).Neg(p.C), pk.N)
@@ -219,6 +227,41 @@ func (p *ProofD) correctResponseSizes(pk *gabikeys.PublicKey) bool {
 	return p.EResponse.Cmp(minimum) >= 0 && p.EResponse.Cmp(maximum) <= 0
 }
 
+// wellFormed checks that all mandatory fields of the (untrusted) proof are present, that all
+// attribute indices refer to a base of the public key, and that optional sub-proofs are attached
+// to hidden attributes of this proof only.
+func (p *ProofD) wellFormed(pk *gabikeys.PublicKey) bool {
+	if p.C == nil || p.A == nil || p.EResponse == nil || p.VResponse == nil {
+		return false
+	}
+	for i, v := range p.AResponses {
+		if v == nil || i < 0 || i >= len(pk.R) {
+			return false
+		}
+	}
+	for i, v := range p.ADisclosed {
+		if v == nil || i < 0 || i >= len(pk.R) {
+			return false
+		}
+	}
+	if p.NonRevocationProof != nil && !pk.RevocationSupported() {
+		return false
+	}
+	for i, proofs := range p.RangeProofs {
+		// A range proof makes a statement about a hidden attribute of this proof; its
+		// MResponse is that attribute's response.
+		if _, hidden := p.AResponses[i]; !hidden {
+			return false
+		}
+		for _, proof := range proofs {
+			if proof == nil {
+				return false
+			}
+		}
+	}
+	return true
+}
+
 // consistentIndices checks that every attribute index occurs at most once in the proof: an
 // attribute is either disclosed or hidden (having a response), never both, and the secret key
 // (attribute 0) is always hidden. Without this a holder could split an attribute value into a
@@ -241,6 +284,9 @@ func (p *ProofD) consistentIndices() bool {
 // reconstructZ reconstructs Z from the information in the proof and the
 // provided public key.
 func (p *ProofD) reconstructZ(pk *gabikeys.PublicKey) (*big.Int, error) {
+	if !p.wellFormed(pk) {
+		return nil, errors.New("incomplete or malformed proof")
+	}
 	if !p.consistentIndices() {
 		return nil, errors.New("attribute index both disclosed and hidden, or secret key not hidden")
 	}
@@ -304,6 +350,9 @@ func (p *ProofD) HasNonRevocationProof() bool {
 // VerifyWithChallenge verifies the proof against the given public key and the provided
 // reconstructed challenge.
 func (p *ProofD) VerifyWithChallenge(pk *gabikeys.PublicKey, reconstructedChallenge *big.Int) bool {
+	if !p.wellFormed(pk) {
+		return false
+	}
 	var notrevoked bool
 	// Validate non-revocation
 	if p.HasNonRevocationProof() {
